@@ -293,12 +293,37 @@ def semantic(r):
     return ''.join(out)
 
 
+def longlines(r):
+    """programs whose lines straddle the line-length limit: padded comments (with and without words, URLs), long strings and expressions"""
+    out = []
+    for _ in range(r.randint(1, 4)):
+        stmt = r.choice(['x = 1', 'def f():', '    return f(a, b)', 'class C: pass', 'y = [1, 2]', '', '    ', 'if a:', '        pass', 'v = g(a)'])
+        pad = r.choice([0, 1, 2, 60, 70, 74, 76, 77, 78, 79, 80, 81, 90, 120])
+        kind = r.random()
+        if kind < 0.35:
+            comment = r.choice(['#', '# ', '#  ', '#\t', '# x', '# ' + 'w' * r.choice([1, 10, 70, 100]), '# http://' + 'a' * r.choice([5, 60, 90]),
+                                '#: ' + 'ab ' * r.choice([1, 30]), '#!' + 'x' * 85, '#' + ' ' * r.choice([1, 80, 100]), '# a ' + ' ' * 90])
+            line = stmt + ' ' * max(0, pad - len(stmt)) + comment
+        elif kind < 0.55:
+            line = stmt.rstrip(':') + ' = "' + 's' * pad + '"' if '=' not in stmt and stmt.strip() and not stmt.endswith(':') else 's = "' + 's' * pad + '"'
+        elif kind < 0.75:
+            line = 'z = ' + ' + '.join('a%d' % i for i in range(max(1, pad // 5)))
+        elif kind < 0.85:
+            line = stmt + ' ' * pad                      # trailing white space beyond the limit
+        else:
+            line = ' ' * min(pad, 40) + 'call(' + ', '.join('arg%d' % i for i in range(max(1, pad // 8))) + ')'
+        out.append(line + r.choice(['\n', '\n', '\n', '\r\n', '']))
+        if stmt.endswith(':') and kind >= 0.35:
+            out.append('    pass\n')
+    return ''.join(out)
+
+
 def derived_any(r):
     return derived(r, r.choice(['3.6', '3.8', '3.10', '3.12', '3.14']))
 
 
 KINDS = [('garbage', garbage, 25), ('lines', lines, 15), ('oneliner', oneliner, 30), ('valid', valid, 10),
-         ('mutate', mutate, 15), ('corpus', corpus, 5), ('derived', derived_any, 10), ('fstrings', fstrings, 20), ('reindent', reindent, 25), ('semantic', semantic, 20)]
+         ('mutate', mutate, 15), ('corpus', corpus, 5), ('derived', derived_any, 10), ('fstrings', fstrings, 20), ('reindent', reindent, 25), ('semantic', semantic, 20), ('longlines', longlines, 8)]
 
 
 def text_case(seed, stream, index, kinds=None):
